@@ -885,6 +885,29 @@ pub fn c12_strings(rng: &mut Rng, thorough: bool) -> Vec<(String, String)> {
             out.push((format!("hand-string-{ntok}-tokens"), t));
         }
     }
+    // long tokens, card tokens run together with or without punctuation, and very short hand texts
+    for body in ["AS", "9♣", "td", "K♥"] {
+        for tail in ["-of-spades", "♣♣♣", "xxxxxxxxxxxxxxxxxxxxxxxxxxxxxxxxxxxxxxxx", "\u{fe0f}", "ASASASASAS", "😀😀😀😀"] {
+            out.push(("long-token".into(), format!("{body}{tail}")));
+            out.push(("long-token".into(), format!("{body}{tail} KS QS JS TS 9S 8S")));
+        }
+    }
+    let cards = ["As", "Ks", "Qs", "Js", "Ts", "9s", "8s"];
+    for n in 1..=7usize {
+        for sep in ["", ",", ";", "-", "/", "|", "+", "_", ".", ":", "&"] {
+            out.push(("cards-run-together".into(), cards[..n].join(sep)));
+            out.push(("cards-run-together".into(), format!("[{}]", cards[..n].join(" "))));
+            out.push(("cards-run-together".into(), format!("{} {}", cards[..n].join(sep), cards[..n].join(sep))));
+        }
+    }
+    for n in 0..=8usize {
+        for tok in ["A", "K", "9", "s", "x"] {
+            out.push(("short-hand-text".into(), vec![tok; n].join(" ")));
+            let mut v = vec!["AS"; n];
+            if n > 2 { v[2] = tok; }
+            out.push(("short-hand-text".into(), v.join(" ")));
+        }
+    }
     for _ in 0..(if thorough { 60_000 } else { 6_000 }) {
         let len = rng.below(14);
         let mut t = String::new();
@@ -1045,7 +1068,7 @@ pub fn cases(prop: &str, thorough: bool, seed: u64, c: &mut Cases) {
         "C12" => {
             for (kind, t) in c12_strings(&mut rng, thorough) {
                 c.emit(&format!("idx/{kind}"), &format!("idx {}", cps(&t)));
-                if kind.starts_with("hand-string") || kind == "seeded-unicode" || kind == "empty" {
+                if kind.starts_with("hand-string") || kind == "seeded-unicode" || kind == "empty" || kind == "long-token" || kind == "cards-run-together" || kind == "short-hand-text" {
                     for n in 2..=7 {
                         c.emit(&format!("parse{n}/{kind}"), &format!("parse {n} {}", cps(&t)));
                     }
@@ -3160,10 +3183,18 @@ fn sweep_c12(seed: u64, thorough: bool) -> Sweep {
         let mut p = Sweep::default();
         for cp in lo as u32..hi as u32 {
             let Some(ch) = char::from_u32(cp) else { continue };
-            for (tok, slot) in [(format!("{ch}s"), 0usize), (format!("A{ch}"), 1usize)] {
-                let text = format!("{tok} KS QS JS TS 9S 8S");
+            // the scalar in the first and in the second position of a token; before, inside and after a complete
+            // card token; and between two card tokens with nothing else in the text
+            let templates = [
+                (format!("{ch}s"), 0usize, true), (format!("A{ch}"), 1, true),
+                (format!("{ch}AS"), 0, true), (format!("A{ch}S"), 1, true), (format!("AS{ch}"), 2, true),
+                (format!("AS{ch}KS"), 2, false), (format!("{ch}AS"), 0, false), (format!("AS{ch}"), 2, false),
+            ];
+            for (tok, slot, filler) in templates {
+                let text = if filler { format!("{tok} KS QS JS TS 9S 8S") } else { tok.clone() };
                 let toks = spec_tokens(&text);
                 p.evaluations += 1;
+                // the card token entry point takes the whole string as one token (no splitting)
                 let want_tok = spec_token(&tok);
                 let got_tok = guarded(|| <CKCNumber as PokerCard>::from_index(&tok));
                 if got_tok != Some(want_tok) {
